@@ -7,6 +7,7 @@ Case lines:
                                    creating object - when that is the master itself - and makes it seteuid(0)
   pol vs <oid|*> <uid|*|-> <spec>  valid_seteuid answer (`-` = empty uid)
   pol vb <doer|*> <new owner|*> <spec>   valid_bind answer
+  pol vo <dir> <spec>|-            valid_object answer for blueprints under /c20/<dir>/ (`-`: no opinion, nothing logged)
   pol root <name> / pol bb <name>  get_root_uid() / get_bb_uid() answer this from now on (matters at a master reload)
   pol co <dir> none|i:<n>|err|t:<template path>|-   compile_object answer for /c20/<dir>/... (`-` = no policy)
   script <name> <op>;<op>..|-      ops run by create() of the object with that file name (<path> / <path>#)
@@ -14,7 +15,7 @@ Case lines:
                                        clone,<newoid>,<path> | dest,<oid> | reload,<oid> | via,<owner>,<op> |
                                        bind,<new owner>,<load..|clone..>
   spec: s:<text> | i:<n> | arr | err | none
-Trace lines:  do / vs / vb / co / cf / new / r / q / crash
+Trace lines:  do / vs / vb / vo / co / cf / new / r / q / crash
 -/
 import NV.Common.Proto
 import NV.C20.Model
@@ -56,6 +57,7 @@ def Err.render : Err → String
   | .policy => "*policy_error"
   | .simulDest => "*Cannot_destruct_simul_efun_object_while_master_object_exists."
   | .bindDenied => "Permission_of_binding_denied_by_master_object."
+  | .voDenied => "*valid_object_denied"
 
 def Res.render : Res → String
   | .int n => toString n
@@ -106,11 +108,14 @@ def StepRec.render (r : StepRec) : List String :=
   let col := match r.co with
     | some (n, a) => ["co " ++ n ++ " " ++ a.render]
     | none => []
+  let vol := match r.vo with
+    | some (n, a) => ["vo " ++ n ++ " " ++ a.render]
+    | none => []
   let vbl := match r.vb with
     | some (d, n, a) => ["vb " ++ d ++ " " ++ n ++ " " ++ a.render]
     | none => []
   let (cl, crashed) := renderCreations r.creations
-  let vsl := vsl ++ vbl ++ col
+  let vsl := vsl ++ vbl ++ vol ++ col
   if crashed then head ++ vsl ++ cl
   else
     let rl := match r.res with
@@ -165,6 +170,8 @@ structure Tables where
     [("u1", .str "u1"), ("u2", .str "u2"), ("bb", .str "Backbone"), ("root", .str "Root"), ("odd", .int 0)]
   vs : List (String × Ans) := []
   vb : List (String × Ans) := []
+  /-- `pol vo <dir> <spec>|-`: valid_object answer for blueprints under that directory -/
+  vo : List (String × Option Ans) := []
   /-- `pol root <name>`: what get_root_uid() answers from now on -/
   root : Option Name := none
   /-- directories whose creator_file answer is preceded by the master's callback into itself (`drop+<spec>`) -/
@@ -184,6 +191,11 @@ def Tables.cfDrop (t : Tables) (name : String) : Bool :=
   match name.splitOn "/" with
   | "" :: "c20" :: d :: _ :: _ => ((t.cfd.find? (fun e => e.1 == d)).map (·.2)).getD false
   | _ => false
+
+def Tables.voAns (t : Tables) (name : String) : Option Ans :=
+  match name.splitOn "/" with
+  | "" :: "c20" :: d :: _ :: _ => ((t.vo.find? (fun e => e.1 == d)).map (·.2)).getD none
+  | _ => none
 
 def Tables.coAns (t : Tables) (name : String) : CoAns :=
   match name.splitOn "/" with
@@ -262,6 +274,12 @@ def parseLine (p : Parsed) (line : String) : Parsed :=
     match parseAns spec with
     | some a => { p with tab := { p.tab with cf := (d, a) :: p.tab.cf, cfd := (d, drop) :: p.tab.cfd } }
     | none => { p with bad := line :: p.bad }
+  | ["pol", "vo", d, spec] =>
+    if spec == "-" then { p with tab := { p.tab with vo := (d, none) :: p.tab.vo } }
+    else
+      match parseAns spec with
+      | some a => { p with tab := { p.tab with vo := (d, some a) :: p.tab.vo } }
+      | none => { p with bad := line :: p.bad }
   | ["pol", "root", n] => { p with tab := { p.tab with root := some n } }
   | ["pol", "bb", _] => p        -- get_bb_uid() answers something else from now on: set_master ignores it after the first load
   | ["pol", "vb", d, n, spec] =>
@@ -305,6 +323,9 @@ def policyOf (steps : List ((Oid × Op) × Tables)) : Policy :=
       | none => .int 1,
     root := fun i => match arr[i]? with
       | some e => e.2.root
+      | none => none,
+    vo := fun i name => match arr[i]? with
+      | some e => e.2.voAns name
       | none => none }
 
 def runModel (lines : List String) : List String :=
@@ -327,7 +348,7 @@ def parseRes (ws : List String) : Option Res :=
   match ws with
   | ["nobj"] => some .nobj
   | ["err", e] =>
-    ([Err.noEuidLoad, .noEuidClone, .exportZero, .badArg, .policy, .simulDest, .bindDenied].find? (fun x => x.render == e)).map .err
+    ([Err.noEuidLoad, .noEuidClone, .exportZero, .badArg, .policy, .simulDest, .bindDenied, .voDenied].find? (fun x => x.render == e)).map .err
   | [x] =>
     match x.toInt? with
     | some n => some (.int n)
@@ -396,6 +417,8 @@ def jline (j : JParse) (line : String) : JParse :=
       | _, _ => none
   | ["vb", d, n, spec] =>
     j.upd line fun r => if r.vb.isSome then none else (parseAns spec).map fun a => { r with vb := some (d, n, a) }
+  | ["vo", name, spec] =>
+    j.upd line fun r => if r.vo.isSome then none else (parseAns spec).map fun a => { r with vo := some (name, a) }
   | ["co", name, spec] =>
     j.upd line fun r => if r.co.isSome then none else (parseCo spec).map fun a => { r with co := some (name, a) }
   | ["cf", name, spec] =>
@@ -407,7 +430,13 @@ def jline (j : JParse) (line : String) : JParse :=
       | some u, some e => some { r with creations := attachNew r.creations { oid := o, name := name, uid := u, euid := e } }
       | _, _ => none
   | "r" :: ws =>
-    j.upd line fun r => if r.res.isSome then none else (parseRes ws).map fun x => { r with res := some x }
+    -- the result that ends a via / bind op (not its first segment: refusals end there) is geteuid(function)
+    j.upd line fun r => if r.res.isSome then none else (parseRes ws).map fun x =>
+      let fo := if r.first then none else (match r.op with
+        | .via t _ => some t
+        | .bind t _ => some t
+        | _ => none)
+      { r with res := some x, fpOwner := fo }
   | "q" :: es =>
     let ps := es.map parseSnapEntry
     match j.open with
